@@ -419,6 +419,52 @@ def _check(ctx: Ctx) -> None:
               construct="the note token of a note is not appended on every path of the note branch", message=f"{[short(c) for c in note_tokens]}",
               file=fe.file, node=note_if)
 
+    # ---- VEL: the emitted velocity is the value of the note's velocity bin, taken from the tokeniser's own bin list
+    vsrc = next(iter(fld_src.get("VELOCITY", {""})))
+    vdef = None
+    for s_ in note_if.body:
+        if isinstance(s_, ast.Assign) and isinstance(s_.targets[0], ast.Name) and s_.targets[0].id == vsrc:
+            vdef = s_.value
+    okv = False
+    if isinstance(vdef, ast.Subscript) and src(vdef.value) == "self.velocity_bins" and isinstance(vdef.slice, ast.Call) \
+            and isinstance(vdef.slice.func, ast.Name) and vdef.slice.func.id == "bin_velocity":
+        a = vdef.slice.args
+        kw = {k.arg: k.value for k in vdef.slice.keywords}
+        vel_arg = a[0] if a else kw.get("velocity")
+        bins_arg = a[1] if len(a) > 1 else kw.get("bins")
+        okv = vel_arg is not None and nze.norm(vel_arg) == nze.norm(ast.parse(f"{pairing}[0].velocity", mode="eval").body) \
+            and bins_arg is not None and src(bins_arg) == "self.velocity_bins"
+    ctx.check(okv, "NOTE", "tokenise: the VELOCITY field is velocity_bins[bin_velocity(note-on velocity, velocity_bins)]", function=fe.qualname,
+              construct="emitted velocity is not the value of the note's bin in the tokeniser's own bin list",
+              message=f"`{vsrc} = {short(vdef) if vdef is not None else '?'}`", file=fe.file, node=note_if)
+
+    # ---- DUR (parser side): every bar line is recorded in every track, at the clock after the bar was closed, so that the
+    # decoded duration reaches the end of the last bar
+    bar_branch = next((b for m_, t_, b in T.prefix_branches(fd.node) if m_ == "BAR"), None) if hasattr(T, "prefix_branches") else None
+    if bar_branch is None:
+        for n_ in ast.walk(fd.node):
+            if isinstance(n_, ast.If) and isinstance(n_.test, ast.Compare) and enum_member(getattr(n_.test.comparators[0], "value", None), "TokenisationPrefixes") == "BAR":
+                bar_branch = n_.body
+    okd = False
+    why = "BAR branch not found"
+    if bar_branch is not None:
+        clk = droles["cur_time"]
+        caps = [c for s_ in bar_branch for c in ast.walk(s_) if isinstance(c, ast.Call) and isinstance(c.func, ast.Name) and c.func.id == "Message"
+                and enum_member(kwarg(c, "message_type"), "MessageType") == "INTERNAL"]
+        adv = [s_ for s_ in bar_branch if isinstance(s_, ast.AugAssign) and isinstance(s_.target, ast.Name) and s_.target.id == clk]
+        why = f"{len(caps)} INTERNAL message(s)"
+        if len(caps) == 1 and adv:
+            c = caps[0]
+            lp_ = next((a for a in ancestors(c) if isinstance(a, ast.For)), None)
+            seqs = next((s_.targets[0].id for s_ in fd.node.body if isinstance(s_, ast.Assign) and isinstance(s_.targets[0], ast.Name)
+                         and isinstance(s_.value, ast.ListComp) and "Sequence" in src(s_.value)), None)
+            okd = lp_ is not None and src(lp_.iter) == seqs and src(kwarg(c, "time")) == clk and lp_.lineno > adv[0].lineno \
+                and not path_conditions(c, lp_) and any(lp_ is s_ for s_ in bar_branch)
+            why = f"loop over `{src(lp_.iter) if lp_ is not None else None}`, time `{short(kwarg(c, 'time'))}`"
+    ctx.check(okd, "DUR", "detokenise: every BAR token marks the bar line in every track at the advanced clock", function=fd.qualname,
+              construct="detokenise does not record the bar line (INTERNAL message at the clock after the bar) in every track",
+              message=f"{why}: the decoded duration would end at the last note instead of the end of the last bar", file=fd.file, node=fd.node)
+
     # ---- INPUT: the events come from one sequence into which every input was merged, each labelled with its track index
     prc = next((c for c in ast.walk(fe.node) if isinstance(c, ast.Call) and call_method(c)[1] == "get_interleaved_message_pairings"), None)
     inp = fe.params[1]
